@@ -367,7 +367,83 @@ def _vkey(oracle, feats):
     return f'{PROP}:{oracle}'
 
 
+SWEEP_TYPES = (int, float, complex, str, bytes, bool, frozenset, set, range, bytearray, type, object, slice,
+               memoryview, type(Ellipsis), type(NotImplemented), type(len), type(lambda: 0))
+
+
+def _sweep_instance(t):
+    samples = {int: 5, float: 1.5, complex: 1 + 2j, str: 'txt', bytes: b'by', bool: True, frozenset: frozenset({1}),
+               set: {1}, range: range(3), bytearray: bytearray(b'x'), type: int, object: object(), slice: slice(1, 2),
+               memoryview: memoryview(b'abc'), type(Ellipsis): Ellipsis, type(NotImplemented): NotImplemented,
+               type(len): len, type(lambda: 0): (lambda: 0)}
+    return samples[t]
+
+
+def type_sweep(ctx, prop=PROP):
+    """Every ordinary builtin leaf type can be registered as a custom node (exact-type rule): register it in
+    namespace 'a' / globally, observe node-vs-leaf in every namespace under both none_is_leaf values and through
+    every traversal, unregister, observe again."""
+    for ti, t in enumerate(SWEEP_TYPES):
+        if not ctx.mine(ti):
+            continue
+        inst = _sweep_instance(t)
+        marker = Leaf(99)
+        tag = f'sweep:{t.__name__}'
+        for ns in ('a', ''):
+            ctx.count()
+            ctx.cls(('type-sweep', t.__name__, ns))
+            case = {'type_sweep': t.__name__, 'namespace': ns or 'global'}
+            r = outcome_of(lambda: optree.register_pytree_node(t, lambda o: ((marker,), tag), lambda m, c: inst,
+                                                               namespace=ns_arg(ns)))
+            if r[0] != 'ok':
+                ctx.violation('sweep-register', f'{prop}:type-sweep:register', case, repr(r))
+                continue
+            try:
+                for obs_ns in OBS_NS:
+                    visible = obs_ns == ns or ns == ''
+                    for nil in (False, True):
+                        tree = [inst, (inst,)]
+                        kw = {'namespace': obs_ns, 'none_is_leaf': nil}
+                        got = {
+                            'flatten': outcome_of(lambda: optree.tree_leaves(tree, **kw)),
+                            'with_path': outcome_of(lambda: optree.tree_flatten_with_path(tree, **kw)[1]),
+                            'iter': outcome_of(lambda: list(optree.tree_iter(tree, **kw))),
+                            'is_leaf': outcome_of(lambda: optree.tree_is_leaf(inst, **kw)),
+                            'all_leaves': outcome_of(lambda: optree.all_leaves([inst], **kw)),
+                            'kind': outcome_of(lambda: optree.tree_structure(inst, **kw).kind.name),
+                            'one_level': outcome_of(lambda: optree.tree_flatten_one_level(inst, **kw).metadata)[:2],
+                        }
+                        want_leaves = [marker, marker] if visible else [inst, inst]
+                        want = {
+                            'flatten': ('ok', want_leaves), 'with_path': ('ok', want_leaves), 'iter': ('ok', want_leaves),
+                            'is_leaf': ('ok', not visible), 'all_leaves': ('ok', not visible),
+                            'kind': ('ok', 'CUSTOM' if visible else 'LEAF'),
+                            'one_level': ('ok', tag) if visible else ('exc', 'ValueError'),
+                        }
+                        for k in want:
+                            g, w = got[k], want[k]
+                            same = g[0] == w[0] and (
+                                (len(g[1]) == len(w[1]) and all(a is b for a, b in zip(g[1], w[1])))
+                                if isinstance(w[1], list) and isinstance(g[1], list) else g[1] == w[1])
+                            if not same:
+                                ctx.violation(f'sweep:{k}', f'{prop}:type-sweep:registered-builtin-type-not-a-node', case,
+                                              f'{t.__name__} registered in {ns or "global"}, observed in {obs_ns!r} nil={nil}: '
+                                              f'{k} = {g!r}, expected {w!r}')
+                    ent = optree.register_pytree_node.get(t, namespace=obs_ns)
+                    if (ent is not None and ent.kind.name == 'CUSTOM') != visible:
+                        ctx.violation('sweep:get', f'{prop}:type-sweep:get', case, f'get({t.__name__}, {obs_ns!r}) = {ent!r}')
+            finally:
+                u = outcome_of(lambda: optree.unregister_pytree_node(t, namespace=ns_arg(ns)))
+            if u[0] != 'ok':
+                ctx.violation('sweep-unregister', f'{prop}:type-sweep:unregister', case, repr(u))
+            back = outcome_of(lambda: optree.tree_leaves([inst], namespace=ns or 'a'))
+            if back[0] != 'ok' or len(back[1]) != 1 or back[1][0] is not inst:
+                ctx.violation('sweep-after-unregister', f'{prop}:type-sweep:unregister', case, repr(back))
+            ctx.outcome('type-sweep')
+
+
 def run_shard(ctx):
+    type_sweep(ctx)
     tn = TYPE_NAMES[ctx.tier]
     depth = 3 if ctx.tier == 'quick' else 5
     for warn_mode in ('always', 'error'):
